@@ -6,6 +6,7 @@ mod circuits;
 mod exec;
 mod hooks;
 mod mpcrun;
+mod schema;
 mod util;
 
 #[global_allocator]
